@@ -32,6 +32,9 @@ STMTS = [
     "assert {[1]}\n", "password = {[1]}\n", "a.password = b'x'\n", "d['token'] = 'x'\n", "d[{[1]}] = 'x'\n", "x = d['password': 'y']\n",
     "password == 'a' == 'b'\n", "'password'[0] = 'q'\n", "s = '/tmp/' '0.0.0.0'\n", "lambda password='x': 0\n", "class C:\n    password: str = 'x'\n",
     "async def f():\n    async with a as b:\n        await mark_safe(b)\n", "v = (\n v)\nmark_safe(v)\n" if False else "w = 'x'\nmark_safe(w)\n",
+    "zz_s = '-' * 10 + zz_t + '-' * 10\n", "zz_q = 'select %s from t ' % zz_c * 2\ncur.execute('select %s from t ' % zz_c * 2)\n",
+    "print('=' * 20 + '-' * 20)\n", "zz_m = 'a' + 1 * 'b' + b'c'.decode() + 2 * zz_n\n", "zz_p = ('x' + zz_a) * 3 + 'y' % () + None\n",
+    "zz_w = 'insert into t values (' + 3 * '?, ' + '?)'\ncur.execute('delete from t where a in (' + 2 * '%s,' % zz_v + ')')\n",
     "match x:\n    case {'password': 'y'}:\n        pass\n", "type X = int\n", "def f[T](x: T = 'select * from t where %s' % y): pass\n",
     "print(f'{\"select * from t where a=\" + x!r:>{w}}')\n", "x = 'select a from b' % (yield)\n", "global_var = [exec, eval, __import__]\n",
 ]
